@@ -176,10 +176,10 @@ Lemma enc_q_injective_b :
                                              end) (a =? c)) (zseq 52)) (zseq 52) = true.
 Proof. vm_compute. reflexivity. Qed.
 
-Lemma enc_q_defined c : 33 <= c < 85 -> exists x, enc_q c = Some x.
+Lemma enc_q_defined c : exists x, enc_q c = Some x.
 Proof.
-  intros H. unfold enc_q. rewrite Z.max_r by lia. rewrite Z.min_l by lia.
-  destruct (nth_error ascii_letters (Z.to_nat (c - 33))) eqn:E; [eauto|].
+  unfold enc_q.
+  destruct (nth_error ascii_letters (Z.to_nat (Z.min (Z.max 0 (c - 33)) 51))) eqn:E; [eauto|].
   apply nth_error_None in E. change (length ascii_letters) with 52%nat in E. lia.
 Qed.
 
@@ -189,14 +189,20 @@ Proof.
   specialize (Hb (c1 - 33) (zseq_In 52 (c1 - 33) ltac:(lia))). rewrite forallb_forall in Hb.
   specialize (Hb (c2 - 33) (zseq_In 52 (c2 - 33) ltac:(lia))).
   replace (33 + (c1 - 33)) with c1 in Hb by lia. replace (33 + (c2 - 33)) with c2 in Hb by lia.
-  destruct (enc_q_defined c1 H1) as [x Hx]. destruct (enc_q_defined c2 H2) as [y Hy].
+  destruct (enc_q_defined c1) as [x Hx]. destruct (enc_q_defined c2) as [y Hy].
   rewrite Hx, Hy in Hb, He. inversion He; subst y. rewrite Z.eqb_refl in Hb. cbn [implb] in Hb. lia.
 Qed.
 
-(* a quality the encoding cannot express makes the strategy raise, never accept a wrong value *)
-Lemma enc_q_raises c : 85 <= c -> enc_q c = None.
+(* the encoder never raises; a quality above phred 51 is clamped to 'Z' (code 90) *)
+Lemma enc_q_clamps c : 84 <= c -> enc_q c = Some 90.
 Proof.
   intros H. unfold enc_q. rewrite Z.max_r by lia. rewrite Z.min_r by lia. reflexivity.
+Qed.
+
+Lemma enc_qs_defined l : exists r, enc_qs l = Some r.
+Proof.
+  induction l as [|c t [r IH]]; [exists []; reflexivity|].
+  destruct (enc_q_defined c) as [x Hx]. exists (x :: r). cbn [enc_qs]. rewrite Hx, IH. reflexivity.
 Qed.
 
 (* ------------------------------------------------------------------ the constructor *)
@@ -238,6 +244,34 @@ Proof. vm_compute. reflexivity. Qed.
 Lemma registered_derive : forallb derive_ok gen_table = true.
 Proof. vm_compute. reflexivity. Qed.
 
+Lemma region_eqb_eq x y : region_eqb x y = true -> x = y.
+Proof.
+  destruct x as [[x1 x2] x3], y as [[y1 y2] y3]. intros Hxy. unfold region_eqb in Hxy. split_andb.
+  f_equal; [f_equal|]; lia.
+Qed.
+
+Lemma playout_eqb_eq a b : playout_eqb a b = true -> a = b.
+Proof.
+  assert (Hregs : forall x y, regions_eqb x y = true -> x = y).
+  { induction x as [|h t IH]; intros [|h' t'] Hxy; cbn [regions_eqb] in Hxy; try discriminate; [reflexivity|].
+    split_andb. f_equal; [apply region_eqb_eq|apply IH]; assumption. }
+  assert (Hor : forall x y, oregion_eqb x y = true -> x = y).
+  { intros [x|] [y|] Hxy; cbn [oregion_eqb] in Hxy; try discriminate; [f_equal; apply region_eqb_eq; assumption|reflexivity]. }
+  assert (Hl : forall x y, list_eqb x y = true -> x = y).
+  { unfold list_eqb. induction x as [|h t IH]; intros [|h' t'] Hxy; cbn [length combine forallb Nat.eqb] in Hxy;
+      try discriminate; [reflexivity|]. split_andb. cbn [fst snd] in *. f_equal; [lia|].
+    apply IH. apply andb_true_iff. split; assumption. }
+  destruct a as [a1 a2 a3 a4 a5 a6 a7], b as [b1 b2 b3 b4 b5 b6 b7]. intros Hab. unfold playout_eqb in Hab.
+  cbn [p_bc p_umi p_primer p_lig p_insert p_min p_max] in Hab. split_andb.
+  f_equal; try (apply Hregs; assumption); try (apply Hor; assumption); try (apply Hl; assumption); lia.
+Qed.
+
+Lemma extras_eqb_eq a b : extras_eqb a b = true -> a = b.
+Proof.
+  revert b. induction a as [|[t r] a' IH]; intros [|[t' r'] b'] H; cbn [extras_eqb] in H; try discriminate; [reflexivity|].
+  cbn [fst snd] in H. split_andb. f_equal; [f_equal; [lia|apply region_eqb_eq; assumption]|apply IH; assumption].
+Qed.
+
 (* every single-protocol registered strategy: accepted => exactly the records the PINNED protocol prescribes *)
 Lemma registered_spec g p lookup recs o out :
   In g gen_table -> find_protocol (g_name g) = Some p ->
@@ -253,26 +287,57 @@ Proof.
   assert (Hk12 : (g_kind g =? 1) || (g_kind g =? 2) = true) by lia. rewrite Hk12 in Hr.
   destruct (gen_positions g) as [P|] eqn:EP; [|discriminate].
   split_andb.
-  assert (HPe : forall a b, playout_eqb a b = true -> a = b).
-  { assert (Hreg : forall x y, region_eqb x y = true -> x = y).
-    { intros [[x1 x2] x3] [[y1 y2] y3] Hxy. unfold region_eqb in Hxy. split_andb. f_equal; [f_equal|]; lia. }
-    assert (Hregs : forall x y, regions_eqb x y = true -> x = y).
-    { induction x as [|h t IH]; intros [|h' t'] Hxy; cbn [regions_eqb] in Hxy; try discriminate; [reflexivity|].
-      split_andb. f_equal; [apply Hreg|apply IH]; assumption. }
-    assert (Hor : forall x y, oregion_eqb x y = true -> x = y).
-    { intros [x|] [y|] Hxy; cbn [oregion_eqb] in Hxy; try discriminate; [f_equal; apply Hreg; assumption|reflexivity]. }
-    assert (Hl : forall x y, list_eqb x y = true -> x = y).
-    { unfold list_eqb. induction x as [|h t IH]; intros [|h' t'] Hxy; cbn [length combine forallb Nat.eqb] in Hxy;
-        try discriminate; [reflexivity|]. split_andb. cbn [fst snd] in *. f_equal; [lia|].
-      apply IH. apply andb_true_iff. split; assumption. }
-    intros [a1 a2 a3 a4 a5 a6 a7] [b1 b2 b3 b4 b5 b6 b7] Hab. unfold playout_eqb in Hab.
-    cbn [p_bc p_umi p_primer p_lig p_insert p_min p_max] in Hab. split_andb.
-    f_equal; try (apply Hregs; assumption); try (apply Hor; assumption); try (apply Hl; assumption); lia. }
-  match goal with H : playout_eqb P (pr_layout p) = true |- _ => apply HPe in H; subst P end.
+  match goal with H : playout_eqb P (pr_layout p) = true |- _ => apply playout_eqb_eq in H; subst P end.
   split; [assumption|].
   assert (Hpk : pr_kind p = g_kind g) by lia.
   unfold demux_gen in Hd. unfold gen_positions in EP. rewrite Hpk.
   destruct Hk as [Hk|Hk]; rewrite Hk in *; cbn [Z.eqb Pos.eqb] in *.
   - inversion Hd as [Hd']. apply (contig_spec _ _ _ _ _ _ EP Hd').
   - inversion Hd as [Hd']. apply (scattered_spec _ _ _ _ _ _ EP Hd').
+Qed.
+
+(* the restriction-bisulfite strategy: accepted => the pinned protocol's records incl. QT / ES / eq / IS *)
+Lemma registered_spec_rb g p lookup recs o out :
+  In g gen_table -> find_protocol (g_name g) = Some p -> g_kind g = 4 ->
+  demux_gen g lookup recs = Some o -> o = Accept out ->
+  expected_rb (pr_layout p) (pr_extra p) lookup recs = Some out /\ length recs = 2%nat.
+Proof.
+  intros Hin Hf Hk Hd ->. pose proof registered_wf as Hr. rewrite forallb_forall in Hr.
+  specialize (Hr g Hin). unfold registered_ok in Hr. rewrite Hf in Hr.
+  apply andb_true_iff in Hr. destruct Hr as [Hkind Hr]. rewrite Hk in Hr. cbn [Z.eqb Pos.eqb orb] in Hr.
+  destruct (positions_rb (g_c g) (g_rb g)) as [[P X]|] eqn:EP; [|discriminate].
+  split_andb.
+  match goal with H : playout_eqb P (pr_layout p) = true |- _ => apply playout_eqb_eq in H; subst P end.
+  match goal with H : extras_eqb X (pr_extra p) = true |- _ => apply extras_eqb_eq in H; subst X end.
+  unfold demux_gen in Hd. rewrite Hk in Hd. cbn [Z.eqb Pos.eqb] in Hd. inversion Hd as [Hd'].
+  apply (rb_spec _ _ _ _ _ _ _ EP Hd').
+Qed.
+
+(* corollaries in terms of the model alone *)
+Lemma contig_accept_arity L W lookup recs out P :
+  positions_c L W = Some P -> demux_contig L W lookup recs = Accept out -> length out = length recs.
+Proof. intros HP H. destruct (contig_spec _ _ _ _ _ _ HP H) as [He _]. eapply expected_arity; eassumption. Qed.
+
+Lemma scattered_accept_arity L W lookup recs out P :
+  positions_s L W = Some P -> demux_scattered L W lookup recs = Accept out -> length out = length recs.
+Proof. intros HP H. destruct (scattered_spec _ _ _ _ _ _ HP H) as [He _]. eapply expected_arity; eassumption. Qed.
+
+Lemma contig_wf_full L W lookup recs out :
+  wf_c L W = true -> demux_contig L W lookup recs = Accept out ->
+  exists P, positions_c L W = Some P /\ wf_p P = true /\ expected P false lookup recs = Some out /\
+            length out = length recs /\ p_min P <= Z.of_nat (length recs) <= p_max P.
+Proof.
+  unfold wf_c. intros Hwf H. destruct (positions_c L W) as [P|] eqn:EP; [|discriminate].
+  exists P. destruct (contig_spec _ _ _ _ _ _ EP H) as [He Ha].
+  repeat split; try assumption; try lia. eapply expected_arity; eassumption.
+Qed.
+
+Lemma scattered_wf_full L W lookup recs out :
+  wf_s L W = true -> demux_scattered L W lookup recs = Accept out ->
+  exists P, positions_s L W = Some P /\ wf_p P = true /\ expected P true lookup recs = Some out /\
+            length out = length recs /\ p_min P <= Z.of_nat (length recs) <= p_max P.
+Proof.
+  unfold wf_s. intros Hwf H. destruct (positions_s L W) as [P|] eqn:EP; [|discriminate].
+  exists P. destruct (scattered_spec _ _ _ _ _ _ EP H) as [He Ha].
+  repeat split; try assumption; try lia. eapply expected_arity; eassumption.
 Qed.
